@@ -149,6 +149,18 @@ pub fn build_input(family: &str, d: usize) -> Vec<u8> {
                 v.truncate(v.len().saturating_sub(n));
             }
         }
+        "ecma-numeric-key" | "object-numeric-key" | "ecma-numeric-keys-descending" => {
+            // keys that read as array indices: a decoder that "completes" sparse arrays allocates by VALUE of a key
+            let marker_and_count: Vec<u8> = if family.starts_with("ecma") { vec![8, 0, 0, 0, 1] } else { vec![3] };
+            v.extend_from_slice(&marker_and_count);
+            let keys: Vec<String> = if family.ends_with("descending") { vec![d.to_string(), (d / 2).to_string(), "0".to_string()] } else { vec![d.to_string()] };
+            for k in keys {
+                v.extend_from_slice(&(k.len() as u16).to_be_bytes());
+                v.extend_from_slice(k.as_bytes());
+                v.push(5);
+            }
+            v.extend_from_slice(&[0, 0, 9]);
+        }
         f if f.starts_with("nest:") => {
             // "nest:<prefix>:<body>": the prefix units once, then d units cycling through the body pattern
             // (A = strict array of one element, O = object with one property, E = ECMA array with one property)
@@ -205,6 +217,8 @@ fn token_grammar(run: &Run, maxtok: usize) -> u64 {
     let toks: Vec<Vec<u8>> = vec![
         vec![0, 0x40, 0, 0, 0, 0, 0, 0, 0], vec![1, 1], vec![2, 0, 1, b'x'], vec![2, 0xFF, 0xFF], vec![3], vec![0, 1, b'a'], vec![0, 0, 9], vec![5], vec![6],
         vec![8, 0, 0, 0, 9], vec![8, 0xFF, 0xFF, 0xFF, 0xFF], vec![10, 0, 0, 0, 2], vec![10, 0xFF, 0xFF, 0xFF, 0xFF], vec![9], vec![0, 0], vec![4], vec![10],
+        // strings and names made of NUL bytes, a numeric name
+        vec![2, 0, 1, 0], vec![2, 0, 3, 0, 0, 0], vec![0, 1, 0], vec![0, 2, b'1', b'7'],
     ];
     let total: u64 = (1..=maxtok as u32).map(|l| (toks.len() as u64).pow(l)).sum();
     let n = AtomicU64::new(0);
@@ -292,6 +306,11 @@ pub fn run(run: &Run) {
             }
         }
     }
+    for fam in ["ecma-numeric-key", "object-numeric-key", "ecma-numeric-keys-descending"] {
+        for d in [0usize, 1, 9, 10, 255, 65_535, 300_000, 16_777_216, 2_147_483_647, 4_294_967_295] {
+            cases.push((fam.to_string(), d, 2048));
+        }
+    }
     // long multi-byte names and strings (truncation / chunked validation at a fixed offset)
     for fam in ["object-name-4byte", "object-name-a4byte", "string-4byte", "string-a4byte", "object-name-4byte-cut", "string-4byte-cut"] {
         for d in [8usize, 200, 252, 256, 260, 1020, 1024, 1028, 4092, 4096, 4100, 8192, 8200, 65_532, 65_535] {
@@ -363,7 +382,7 @@ pub fn run(run: &Run) {
     let total = cases.len() as u64 + g;
     run.set("evaluations", json!(total));
     run.set("distinct_nontrivial", json!(total));
-    run.set("rule", json!("child-process cases: (family, depth or count on the ladder 1,10,100,... up to 16 MiB / unit plus rungs around 128/256/1000/5000/20000/50000, stack size); mixed nests nest:<prefix>:<body> (prefix of 1-3 containers of one kind above a run of another kind or of a repeating pattern) at rungs around 128/256 and deep; in-process: every sequence of <= 4 (quick) / 5 (thorough) tokens of a 17-token AMF0 grammar; all distinct"));
+    run.set("rule", json!("child-process cases: (family, depth or count on the ladder 1,10,100,... up to 16 MiB / unit plus rungs around 128/256/1000/5000/20000/50000, stack size); mixed nests nest:<prefix>:<body> (prefix of 1-3 containers of one kind above a run of another kind or of a repeating pattern) at rungs around 128/256 and deep; in-process: every sequence of <= 4 (quick) / 5 (thorough) tokens of a 21-token AMF0 grammar; all distinct"));
     run.set("exhaustive", json!(false));
     run.set("stack_sizes_kib", json!(stacks));
     run.set("max_input_bytes", json!(max_len));
